@@ -52,6 +52,8 @@ type holder struct {
 	relCalled int
 	told      []told
 	given     []*rcall // consumer: the value it was handed
+	// autoRelease: the library releases this reference itself on invalidation without any notification (nil released callback)
+	autoRelease bool
 }
 
 func (h *holder) last() *told {
@@ -70,11 +72,12 @@ type actorCall struct {
 type consumer struct {
 	id        int
 	task      *simrt.Task
-	kind      int // 0 Wait 1 Resolve 2 ResolveWithReleased 3 Access 4 AddRefPromise+later Await
+	kind      int // 0 Wait 1 Resolve 2 ResolveWithReleased 3 Access 4 AddRefPromise+later Await 5 WaitRefCountContainer
 	inCall    bool
 	cancel    context.CancelFunc
 	cancelReq int
 	relCb     int // ResolveWithReleased: released callback count
+	nilCb     bool
 	mustFire  bool
 	// Access
 	cbRunning *accessInv
@@ -107,7 +110,10 @@ type world struct {
 	ctxChangeRet []int    // stamps at which it returned (0 while in flight)
 	stored       []*rcall // calls whose released() the invalidator may invoke
 	p5           []*rcall
-	byErr        map[error]*rcall
+	// refsUncertain: the number of references the library holds can no longer be derived from the
+	// harness bookkeeping (see liveHolders); reference-count based oracles are skipped for this run
+	refsUncertain bool
+	byErr         map[error]*rcall
 }
 
 // rcOfVal identifies the resolver call a value belongs to. A resolver may
@@ -400,6 +406,17 @@ func (w *world) liveHolders() (n int, rec []*holder) {
 	for _, h := range w.holders {
 		if h.consumer {
 			if h.relCalled == 0 {
+				// ResolveWithReleased with a nil callback: the library drops the
+				// reference itself when the value is invalidated and nothing tells us
+				if h.autoRelease {
+					if len(h.given) == 0 {
+						w.refsUncertain = true
+						continue
+					}
+					if h.given[0].rel > 0 {
+						continue
+					}
+				}
 				n++
 			}
 			continue
@@ -424,10 +441,14 @@ func (w *world) checkQuiescent(final bool) {
 		}
 	}
 	nrefs, rec := w.liveHolders()
+	if w.refsUncertain {
+		w.checkConsumersQuiescent()
+		return
+	}
 	// internal references of consumers still inside their calls also count as references
 	consumersIn := 0
 	for _, x := range w.consumers {
-		if x.inCall {
+		if x.inCall && x.kind != 5 { // WaitRefCountContainer takes no reference
 			consumersIn++
 		}
 	}
@@ -516,6 +537,16 @@ func (w *world) checkQuiescent(final bool) {
 				return
 			}
 		}
+		if w.targetErr != nil && cur.err == nil {
+			if pe := w.targetErr.GetValue(); pe != nil && *pe != nil {
+				c.Fail("C09.P4.stale-target-error", "at a quiescent point the current result is the value of resolver call %d but the error container still holds the error %v of an earlier result", cur.n, *pe)
+				return
+			}
+		}
+		if w.target != nil && cur.err != nil && w.target.GetValue() != nil {
+			c.Fail("C09.P4.stale-target-value", "at a quiescent point the current result is the error of resolver call %d but the target container still holds value %d", cur.n, w.target.GetValue().id)
+			return
+		}
 	}
 	if len(unreleased) == 0 && w.target != nil && w.target.GetValue() != nil {
 		c.Fail("C08.E2.target-holds-released-value", "at a quiescent point the target container holds value %d although every resolver result has been released", w.target.GetValue().id)
@@ -591,7 +622,10 @@ func run(c *core.Ctx) {
 	}
 	nc := c.IntRange(0, 2)
 	for i := 0; i < nc; i++ {
-		x := &consumer{id: i, kind: c.S.Plan(5)}
+		x := &consumer{id: i, kind: c.S.Plan(6)}
+		if x.kind == 5 && w.target == nil {
+			x.kind = 1
+		}
 		w.consumers = append(w.consumers, x)
 		x.task = c.Actor("consumer", func() { w.runConsumer(x) })
 		tasks = append(tasks, x.task)
@@ -690,7 +724,7 @@ func run(c *core.Ctx) {
 		return
 	}
 	for _, x := range w.consumers {
-		if x.kind == 2 {
+		if x.kind == 2 && !x.nilCb {
 			if x.relCb > 1 {
 				c.Fail("C10.W2.released-callback-twice", "the released callback of ResolveWithReleased fired %d times", x.relCb)
 				return
